@@ -43,17 +43,21 @@ def _has_opaque(raw):
 
 
 class _Remap:
-    def __init__(self, loff, boff, poff):
+    def __init__(self, loff, boff, poff, lmap=None):
         self.loff, self.boff, self.poff = loff, boff, poff
+        self.lmap = lmap or {}
+
+    def local(self, l):
+        return self.lmap[l] if l in self.lmap else l + self.loff
 
     def place(self, p):
         pr = []
         for e in p["pr"]:
             if isinstance(e, dict) and "i" in e:
                 e = dict(e)
-                e["i"] = e["i"] + self.loff
+                e["i"] = self.local(e["i"])
             pr.append(e)
-        return {"l": p["l"] + self.loff, "pr": pr}
+        return {"l": self.local(p["l"]), "pr": pr}
 
     def operand(self, o):
         if "c" in o:
@@ -107,13 +111,80 @@ class _Remap:
         return t
 
 
+def _writes_local(raw, l):
+    """Does the body assign to local `l` itself (not through a pointer it holds), borrow it mutably or use it as a call destination?"""
+    def direct(p):
+        return p["l"] == l and (not p["pr"] or p["pr"][0] != "*")
+    for blk in raw["blocks"]:
+        for s in blk["s"]:
+            if direct(s["p"]):
+                return True
+            r = s.get("r")
+            if r and r["k"] in ("ref", "rawptr") and r.get("bk") != "shared" and direct(r["p"]):
+                return True
+        t = blk["t"]
+        if t["k"] == "call" and direct(t["dest"]):
+            return True
+        if t["k"] == "drop" and direct(t["p"]):
+            return True
+    return False
+
+
+def _single_def(raw, l):
+    d = None
+    for blk in raw["blocks"]:
+        for s in blk["s"]:
+            if s["p"]["l"] == l and not s["p"]["pr"]:
+                if d is not None:
+                    return None
+                d = s
+        t = blk["t"]
+        if t["k"] == "call" and t["dest"]["l"] == l:
+            return None
+    return d
+
+
+def _mentions(op, l):
+    p = op.get("c") or op.get("m")
+    return p is not None and (p["l"] == l or any(isinstance(e, dict) and e.get("i") == l for e in p["pr"]))
+
+
 def _inline_call(caller, bi, callee):
-    """Replace the call terminating block `bi` of raw body `caller` by a copy of raw body `callee`."""
+    """Replace the call terminating block `bi` of raw body `caller` by a copy of raw body `callee`.
+
+    The copy is written the way the code would read had it never been extracted:
+      - the callee's return place IS the call's destination when that is a plain local no argument mentions;
+      - a parameter IS the argument local when the argument is a moved temporary (dead after the call), or a copied local the
+        callee never writes; a moved temporary that merely reborrows a reference (`tmp = &mut *r`) is replaced by `r` itself;
+      - anything else becomes an explicit assignment `param = argument` before the entry block."""
     call = caller["blocks"][bi]["t"]
     loff = len(caller["locals"])
     boff = len(caller["blocks"])
     poff = len(caller.get("promoted") or [])
-    rm = _Remap(loff, boff, poff)
+    lmap = {}
+    dest = call["dest"]
+    if not dest["pr"] and not any(_mentions(a, dest["l"]) for a in call["args"]):
+        lmap[0] = dest["l"]
+    assigns = []
+    for i, a in enumerate(call["args"]):
+        pl = i + 1
+        src = a.get("m") or a.get("c")
+        if src is not None and not src["pr"]:
+            if "m" in a:
+                tgt = src["l"]
+                d = _single_def(caller, tgt)
+                # reborrow of a reference held in another local: the temporary is that reference
+                if d is not None and d.get("r", {}).get("k") == "ref" and d["r"]["p"]["pr"] == ["*"] and tgt > caller["arg_count"]:
+                    base = d["r"]["p"]["l"]
+                    if caller["locals"][base]["ty"].startswith("&") and not _writes_local(callee, pl):
+                        tgt = base
+                lmap[pl] = tgt
+                continue
+            if not _writes_local(callee, pl):
+                lmap[pl] = src["l"]
+                continue
+        assigns.append((pl, a))
+    rm = _Remap(loff, boff, poff, lmap)
     line = (call.get("span") or {}).get("lo")
     caller["locals"].extend(copy.deepcopy(callee["locals"]))
     if callee.get("promoted"):
@@ -125,20 +196,21 @@ def _inline_call(caller, bi, callee):
         if blk.get("cleanup"):
             nb["cleanup"] = True
         if nb["t"]["k"] == "return":
-            st = {"k": "assign", "p": call["dest"], "r": {"k": "use", "o": {"m": {"l": loff, "pr": []}}}, "inl": "ret"}
-            if blk["s"] and "line" in blk["s"][-1]:
-                st["line"] = blk["s"][-1]["line"]
-            nb["s"].append(st)
+            if 0 not in lmap:
+                st = {"k": "assign", "p": dest, "r": {"k": "use", "o": {"m": {"l": loff, "pr": []}}}, "inl": "ret"}
+                if blk["s"] and "line" in blk["s"][-1]:
+                    st["line"] = blk["s"][-1]["line"]
+                else:
+                    st["line"] = line or 0
+                nb["s"].append(st)
             if cont is None:
                 nb["t"] = {"k": "unreachable", "span": nb["t"].get("span")}
             else:
                 nb["t"] = {"k": "goto", "target": cont, "span": nb["t"].get("span")}
         caller["blocks"].append(nb)
     pre = caller["blocks"][bi]
-    for i, a in enumerate(call["args"]):
-        st = {"k": "assign", "p": {"l": loff + 1 + i, "pr": []}, "r": {"k": "use", "o": a}, "inl": "arg"}
-        if line is not None:
-            st["line"] = line
+    for pl, a in assigns:
+        st = {"k": "assign", "p": {"l": loff + pl, "pr": []}, "r": {"k": "use", "o": a}, "inl": "arg", "line": line or 0}
         pre["s"].append(st)
     pre["t"] = {"k": "goto", "target": boff, "span": call.get("span"), "inl_call": callee["path"]}
 
